@@ -825,16 +825,16 @@ func flagSetWithMutation(info *types.Info, fd *ast.FuncDecl, flag types.Object, 
 func ruleC12Refresh(c *Ctx) {
 	pk := c.P.ByRel["internal/workspace"]
 	info := pk.TypesInfo
-	refresh, loop := findRefreshFixpoint(c.P)
+	refresh, _, passBody, passOwner := findRefreshFixpointBody(c.P)
 	if refresh == nil {
 		c.undecided("C12-REFRESH", "workspace.Workspace", "include-tree refresh fixpoint", token.NoPos, "no Workspace method with a fixpoint loop found")
 		return
 	}
 	rname := c.P.declName(refresh)
 	// (a) every argument passed to same-receiver calls inside the loop is (re)computed inside the loop
-	recv := recvObj(info, refresh)
+	recv := recvObj(info, passOwner)
 	nArgs := 0
-	ast.Inspect(loop.Body, func(x ast.Node) bool {
+	ast.Inspect(passBody, func(x ast.Node) bool {
 		call, ok := x.(*ast.CallExpr)
 		if !ok {
 			return true
@@ -856,7 +856,7 @@ func ruleC12Refresh(c *Ctx) {
 				continue
 			}
 			nArgs++
-			inLoop := o.Pos() >= loop.Body.Pos() && o.Pos() <= loop.Body.End()
+			inLoop := o.Pos() >= passBody.Pos() && o.Pos() <= passBody.End()
 			c.check(inLoop, "C12-REFRESH", rname, "fixpoint recomputes "+se.Sel.Name+" argument", call.Pos(),
 				"the set passed to "+se.Sel.Name+" is recomputed in every iteration of the fixpoint",
 				"the set passed to "+se.Sel.Name+" is computed once outside the fixpoint loop: files that become reachable through newly added files are never loaded")
@@ -906,13 +906,88 @@ func ruleC12Refresh(c *Ctx) {
 // a non-range `for` loop in whose body a set (a map) is computed by a call on the receiver and handed to
 // further calls on the receiver.
 func findRefreshFixpoint(p *Prog) (*ast.FuncDecl, *ast.ForStmt) {
+	fd, loop, _, _ := findRefreshFixpointBody(p)
+	return fd, loop
+}
+
+// findRefreshFixpointBody also returns the statements of one pass and the function they belong to: the loop's own
+// body, or - for `for w.onePass() { }` - the body of the receiver method that is the loop's condition.
+func findRefreshFixpointBody(p *Prog) (*ast.FuncDecl, *ast.ForStmt, *ast.BlockStmt, *ast.FuncDecl) {
 	pk := p.ByRel["internal/workspace"]
 	if pk == nil {
-		return nil, nil
+		return nil, nil, nil, nil
 	}
 	info := pk.TypesInfo
-	var refresh *ast.FuncDecl
+	methods := map[types.Object]*ast.FuncDecl{}
+	for _, f := range pk.Syntax {
+		for _, d := range f.Decls {
+			if fd, ok := d.(*ast.FuncDecl); ok && fd.Recv != nil && fd.Body != nil {
+				methods[info.Defs[fd.Name]] = fd
+			}
+		}
+	}
+	baseIsRecv := func(e ast.Expr, recv types.Object) bool {
+		base := ast.Unparen(e)
+		for {
+			inner, ok := base.(*ast.SelectorExpr)
+			if !ok {
+				break
+			}
+			base = ast.Unparen(inner.X)
+		}
+		id, ok := base.(*ast.Ident)
+		return ok && recv != nil && info.Uses[id] == recv
+	}
+	// onePass: in `body` (of a method with receiver recv) a set computed by a call on the receiver - or by a plain
+	// function applied to parts of it - is handed to further calls on the receiver
+	onePass := func(body *ast.BlockStmt, recv types.Object) bool {
+		onRecv := func(call *ast.CallExpr) bool {
+			se, ok := ast.Unparen(call.Fun).(*ast.SelectorExpr)
+			return ok && baseIsRecv(se.X, recv)
+		}
+		argsOfRecv := func(call *ast.CallExpr) bool {
+			if len(call.Args) == 0 {
+				return false
+			}
+			for _, a := range call.Args {
+				if !baseIsRecv(a, recv) {
+					return false
+				}
+			}
+			return true
+		}
+		sets := map[types.Object]bool{}
+		passed := false
+		ast.Inspect(body, func(y ast.Node) bool {
+			switch n := y.(type) {
+			case *ast.AssignStmt:
+				if len(n.Lhs) == 1 && len(n.Rhs) == 1 {
+					if call, ok := ast.Unparen(n.Rhs[0]).(*ast.CallExpr); ok && (onRecv(call) || argsOfRecv(call)) {
+						if t := info.TypeOf(n.Rhs[0]); t != nil {
+							if _, isMap := t.Underlying().(*types.Map); isMap {
+								if o := info.Defs[identOf(n.Lhs[0])]; o != nil {
+									sets[o] = true
+								}
+							}
+						}
+					}
+				}
+			case *ast.CallExpr:
+				if onRecv(n) {
+					for _, a := range n.Args {
+						if sets[info.Uses[identOf(a)]] {
+							passed = true
+						}
+					}
+				}
+			}
+			return true
+		})
+		return passed
+	}
+	var refresh, owner *ast.FuncDecl
 	var loop *ast.ForStmt
+	var pass *ast.BlockStmt
 	for _, f := range pk.Syntax {
 		for _, d := range f.Decls {
 			fd, ok := d.(*ast.FuncDecl)
@@ -920,84 +995,31 @@ func findRefreshFixpoint(p *Prog) (*ast.FuncDecl, *ast.ForStmt) {
 				continue
 			}
 			recv := recvObj(info, fd)
-			onRecv := func(call *ast.CallExpr) bool {
-				se, ok := ast.Unparen(call.Fun).(*ast.SelectorExpr)
-				if !ok {
-					return false
-				}
-				// the receiver itself or a component of it (w.edges.closure(...))
-				base := ast.Unparen(se.X)
-				for {
-					inner, ok := base.(*ast.SelectorExpr)
-					if !ok {
-						break
-					}
-					base = ast.Unparen(inner.X)
-				}
-				id, ok := base.(*ast.Ident)
-				return ok && recv != nil && info.Uses[id] == recv
-			}
-			// a plain function applied to parts of the receiver (reachableFrom(w.root, w.graph))
-			argsOfRecv := func(call *ast.CallExpr) bool {
-				if len(call.Args) == 0 {
-					return false
-				}
-				for _, a := range call.Args {
-					base := ast.Unparen(a)
-					for {
-						inner, ok := base.(*ast.SelectorExpr)
-						if !ok {
-							break
-						}
-						base = ast.Unparen(inner.X)
-					}
-					id, ok := base.(*ast.Ident)
-					if !ok || recv == nil || info.Uses[id] != recv {
-						return false
-					}
-				}
-				return true
-			}
 			ast.Inspect(fd.Body, func(x ast.Node) bool {
 				fs, ok := x.(*ast.ForStmt)
 				if !ok {
 					return true
 				}
-				sets := map[types.Object]bool{}
-				passed := false
-				ast.Inspect(fs.Body, func(y ast.Node) bool {
-					switch n := y.(type) {
-					case *ast.AssignStmt:
-						if len(n.Lhs) == 1 && len(n.Rhs) == 1 {
-							if call, ok := ast.Unparen(n.Rhs[0]).(*ast.CallExpr); ok && (onRecv(call) || argsOfRecv(call)) {
-								if t := info.TypeOf(n.Rhs[0]); t != nil {
-									if _, isMap := t.Underlying().(*types.Map); isMap {
-										if o := info.Defs[identOf(n.Lhs[0])]; o != nil {
-											sets[o] = true
-										}
-									}
-								}
-							}
-						}
-					case *ast.CallExpr:
-						if onRecv(n) {
-							for _, a := range n.Args {
-								if sets[info.Uses[identOf(a)]] {
-									passed = true
-								}
+				if onePass(fs.Body, recv) {
+					refresh, loop, pass, owner = fd, fs, fs.Body, fd
+					return true
+				}
+				// `for w.onePass() { }`: the pass is the method called in the condition
+				if fs.Cond != nil && fs.Init == nil && fs.Post == nil {
+					cond := ast.Unparen(fs.Cond)
+					if call, ok := cond.(*ast.CallExpr); ok && len(call.Args) == 0 {
+						if se, ok := ast.Unparen(call.Fun).(*ast.SelectorExpr); ok && baseIsRecv(se.X, recv) {
+							if m := methods[info.Uses[se.Sel]]; m != nil && onePass(m.Body, recvObj(info, m)) {
+								refresh, loop, pass, owner = fd, fs, m.Body, m
 							}
 						}
 					}
-					return true
-				})
-				if passed {
-					refresh, loop = fd, fs
 				}
 				return true
 			})
 		}
 	}
-	return refresh, loop
+	return refresh, loop, pass, owner
 }
 
 // elementwiseListGuard: cond is `!eq(a, b)` where eq is slices.Equal / reflect.DeepEqual or a module
